@@ -259,7 +259,7 @@ def leftmost(ctx, cfg, fs):
     incs = [i for i, k, st in it.stmts() if st['k'] == 'assign' and st['rv']['k'] == 'bin' and st['rv']['op'].startswith('Add') and (op_const(st['rv']['b']) or {}).get('v') == 1 and 'cur' in place_fields(op_place(st['rv']['a']) or [0, []])]
     dec = any(st['k'] == 'assign' and st['rv']['k'] == 'bin' and st['rv']['op'].startswith('Sub') and 'cur' in place_fields(op_place(st['rv']['a']) or [0, []]) for i, k, st in it.stmts())
     pres = [c for c in it.calls() if c.is_(r'^args::inner::State::present$')]
-    somes = [i for i, k, st in it.stmts() if st['k'] == 'assign' and st['lhs'] == [0, []] and st['rv']['k'] == 'agg' and st['rv'].get('variant') == 'Some']
+    somes = value_sites(it, 'Some')
     guarded = False
     for c in pres:
         for s2 in switches(it):
